@@ -8,7 +8,15 @@ import signal
 import sys
 
 sys.path.insert(0, os.path.dirname(os.path.abspath(__file__)))
-logging.disable(logging.CRITICAL)
+if os.environ.get('CUV_DEBUG_LOG'):
+    # profile B: DEBUG logging is ON (as with the tools' --debug), the records go nowhere
+    logging.getLogger().addHandler(logging.NullHandler())
+    logging.getLogger().setLevel(logging.DEBUG)
+else:
+    logging.disable(logging.CRITICAL)
+if os.environ.get('TZ'):
+    import time
+    time.tzset()
 
 
 class Hang(BaseException):
